@@ -34,7 +34,7 @@ func TestMain(m *testing.M) {
 	// classify what the race detector logged; an unknown race is the verdict of this run
 	unknown := classifyRaces()
 	world.FlushStats()
-	if unknown > 0 {
+	if unknown > 0 || torn.Load() {
 		os.Exit(1)
 	}
 	if code != 0 && racesSeen > 0 && !otherFailure.Load() {
@@ -46,6 +46,19 @@ func TestMain(m *testing.M) {
 
 var otherFailure atomic.Bool
 var racesSeen int
+
+// tornRead: a list handed out by the API was modified underneath the reader (a consequence of a
+// data race that is visible even without the race detector).
+var tornOnce sync.Once
+var torn atomic.Bool
+
+func tornRead(what string) {
+	tornOnce.Do(func() {
+		torn.Store(true)
+		otherFailure.Store(true)
+		fmt.Printf("VERIF-FAIL sig=C17/torn-read/nil-entry :: %s while another goroutine changed the list\n", what)
+	})
+}
 
 // ---------------------------------------------------------------------------------------------
 // world
@@ -305,8 +318,16 @@ func (e *env) local(o op, peers []*world.Peer) {
 		_ = e.w.Local.BindingManager().HasLocalFeatureRemoteBinding(e.lc.Address(), p.FA([]uint{1}, 2))
 	case "remote-tree-read":
 		if d := e.w.Local.RemoteDeviceForSki(p.Ski); d != nil {
-			for _, en := range d.Entities() {
+			for i, en := range d.Entities() {
+				if en == nil {
+					tornRead(fmt.Sprintf("DeviceRemote.Entities() returned a list with a nil entry at index %d", i))
+					continue
+				}
 				for _, f := range en.Features() {
+					if f == nil {
+						tornRead("EntityRemote.Features() returned a list with a nil entry")
+						continue
+					}
 					_ = f.Operations()
 					_ = f.Address()
 				}
@@ -613,6 +634,40 @@ func TestStorms(t *testing.T) {
 					p = np
 				}
 			},
+		}
+	})
+	run("remote-entities-vs-readers", func(e *env, stop *atomic.Bool) []func() {
+		// a peer's entity comes and goes (discovery notifications) while application goroutines walk
+		// that peer's tree through the public accessors and registries are queried
+		p0 := e.w.Peers[0]
+		reader := func() {
+			for !stop.Load() {
+				e.local(op{Kind: "remote-tree-read", A: 0}, e.w.Peers)
+				e.local(op{Kind: "registry-read", A: 0}, e.w.Peers)
+				if d := e.w.Local.RemoteDeviceForSki(p0.Ski); d != nil {
+					for i, en := range d.Entities() {
+						if en == nil {
+							tornRead(fmt.Sprintf("DeviceRemote.Entities() returned a list with a nil entry at index %d", i))
+							continue
+						}
+						_ = d.FeatureByEntityTypeAndRole(en, model.FeatureTypeTypeLoadControl, model.RoleTypeClient)
+						_ = en.Address()
+					}
+					_ = d.Entity([]model.AddressEntityType{2})
+				}
+			}
+		}
+		return []func(){
+			func() {
+				for i := 0; i < 200; i++ {
+					e.inbound(p0, op{Kind: "entity-removed"})
+					e.inbound(p0, op{Kind: "subscribe"})
+					e.inbound(p0, op{Kind: "entity-added"})
+					e.inbound(p0, op{Kind: "subscribe"})
+				}
+				stop.Store(true)
+			},
+			reader, reader,
 		}
 	})
 	run("entities-vs-discovery", func(e *env, stop *atomic.Bool) []func() {
